@@ -129,6 +129,9 @@ type Record struct {
 	AltRef         *byte
 	Alt            *Rational
 	GPSTime        *[3]Rational
+	// KnownModel != 0: Make and Model name a camera of the library's model table, and this is the
+	// number the result must report for it whatever the layout
+	KnownModel uint32
 	GPSDate        *string // "YYYY:MM:DD"
 }
 
